@@ -59,6 +59,12 @@ func (e *p2pEnv) rangeReply(beh string, o, a uint64, have int) peers.Reply {
 			return peers.Reply{Kind: "notfound"}
 		}
 		return peers.Reply{Kind: "ok", Headers: hs, Delay: 45 * time.Millisecond}
+	case "late": // honest, but the answer arrives after the caller has given up
+		hs := avail(get(o, a))
+		if len(hs) == 0 {
+			return peers.Reply{Kind: "notfound"}
+		}
+		return peers.Reply{Kind: "ok", Headers: hs, Delay: 200 * time.Millisecond}
 	case "partialreset": // k headers of the answer, then the stream is reset
 		hs := avail(get(o, a))
 		if arg < len(hs) {
@@ -104,11 +110,15 @@ func (e *p2pEnv) rangeReply(beh string, o, a uint64, have int) peers.Reply {
 			hs[i] = &vhdr.Header{Chain: c.Chain, H: c.H, T: c.T, Prev: c.Prev, Salt: 5, Forged: true}
 		}
 		return peers.Reply{Kind: "ok", Headers: hs}
-	case "wrongchain":
+	case "wrongchain", "wrongchaincase": // a header of another chain; "case": its chain ID differs by letter case only
 		hs := get(o, a)
 		if len(hs) > 0 {
 			c := hs[0]
-			hs[0] = &vhdr.Header{Chain: "B", H: c.H, T: c.T, Prev: c.Prev}
+			id := "B"
+			if parts[0] == "wrongchaincase" {
+				id = strings.ToLower(c.Chain)
+			}
+			hs[0] = &vhdr.Header{Chain: id, H: c.H, T: c.T, Prev: c.Prev}
 		}
 		return peers.Reply{Kind: "ok", Headers: hs}
 	case "panicky": // a forged header on which the header type's own Validate panics (a hostile payload hitting a bug there)
@@ -174,6 +184,14 @@ func (e *p2pEnv) sessionCase(prop string, from, to uint64, chunk uint64, ps []se
 	}()
 	out := <-ch
 	cancel()
+	for _, p := range ps {
+		for _, b := range p.behs {
+			if b == "late" { // let the late answers arrive: they must be dropped quietly
+				time.Sleep(350 * time.Millisecond)
+				break
+			}
+		}
+	}
 	// request logs, merged by global sequence
 	type ev struct {
 		seq          uint64
@@ -241,7 +259,7 @@ func (e *p2pEnv) sessionCase(prop string, from, to uint64, chunk uint64, ps []se
 	emit("%s from=%d to=%d chunk=%d peers=%s => res=%s err=%s trace=%s", prop, from, to, chunk, strings.Join(pd, ","), r, ec, trs)
 }
 
-var byzantine = []string{"panicky:0", "panicky:1", "shift:1", "shift:5", "dup", "reorder", "gapped", "forged:0", "forged:1", "wrongchain", "oversized", "status", "garbage", "notfound", "empty", "reset", "hang", "prefix:1", "prefix:2"}
+var byzantine = []string{"panicky:0", "panicky:1", "shift:1", "shift:5", "dup", "reorder", "gapped", "forged:0", "forged:1", "wrongchain", "wrongchaincase", "oversized", "status", "garbage", "notfound", "empty", "reset", "hang", "prefix:1", "prefix:2"}
 var benign = []string{"slow", "partialreset:1", "partialreset:2", "notfound", "prefix:1", "prefix:2", "prefix:3", "hang", "reset", "empty"}
 
 func runSession(prop, tier string, r *rng) {
@@ -280,7 +298,7 @@ func runSession(prop, tier string, r *rng) {
 		}
 		// the same Byzantine answers against a client that was built WITHOUT a connection gater
 		e.nilGater = true
-		for _, b := range []string{"forged:0", "shift:1", "garbage", "wrongchain", "panicky:0"} {
+		for _, b := range []string{"forged:0", "shift:1", "garbage", "wrongchain", "wrongchaincase", "panicky:0"} {
 			e.sessionCase(prop, 5, 14, 3, []sessPeer{{have: 100, behs: []string{b, b}}, {have: 100}}, 700)
 		}
 		e.nilGater = false
@@ -288,6 +306,11 @@ func runSession(prop, tier string, r *rng) {
 		for _, b := range byzantine {
 			e.sessionCase(prop, 5, 14, 4, []sessPeer{{have: 100, behs: []string{b}}}, 700)
 			e.sessionCase(prop, 5, 14, 3, []sessPeer{{have: 100, behs: []string{b, b}}, {have: 100}}, 700)
+		}
+		// the caller gives up (or its deadline passes) while valid answers are still on their way
+		for _, chunk := range []uint64{1, 2} {
+			e.sessionCase(prop, 3, 3+1+2*chunk, chunk, []sessPeer{{have: 120, behs: []string{"late", "late"}}, {have: 120, behs: []string{"late", "late"}}}, 40)
+			e.sessionCase(prop, 3, 3+1+3*chunk, chunk, []sessPeer{{have: 120, behs: []string{"honest", "late"}}, {have: 120, behs: []string{"late"}}}, 60)
 		}
 		k := 60
 		if tier == "thorough" {
